@@ -22,6 +22,9 @@ type FakeHost struct {
 	Peers     map[peer.ID]*FakeHost // reachable hosts for NewStream
 	// Sent records what local code wrote on outgoing streams (per NewStream call).
 	Sent [][]byte
+	// BeforeWrite, if set, is called at the start of every Write on an outgoing stream (a schedule point for
+	// scenarios with concurrent senders).
+	BeforeWrite func()
 }
 
 func NewFakeHost(self peer.ID) *FakeHost {
@@ -69,7 +72,13 @@ type outStream struct {
 	closed  bool
 }
 
-func (s *outStream) Write(p []byte) (int, error) { return s.buf.Write(p) }
+func (s *outStream) Write(p []byte) (int, error) {
+	if f := s.from.BeforeWrite; f != nil {
+		f()
+	}
+	// the bytes are taken at the time of the call, as a real stream would put them on the wire
+	return s.buf.Write(append([]byte{}, p...))
+}
 func (s *outStream) Close() error {
 	if s.closed {
 		return nil
